@@ -11,6 +11,7 @@ import (
 	"github.com/nspcc-dev/neo-go/pkg/core/transaction"
 	"github.com/nspcc-dev/neo-go/pkg/crypto/keys"
 	"github.com/nspcc-dev/neo-go/pkg/io"
+	"github.com/nspcc-dev/neo-go/pkg/neotest"
 	"github.com/nspcc-dev/neo-go/pkg/smartcontract"
 	"github.com/nspcc-dev/neo-go/pkg/smartcontract/scparser"
 	"github.com/nspcc-dev/neo-go/pkg/util"
@@ -51,17 +52,19 @@ const (
 	cTruncated
 	cTrailing
 	cNonMinimalCount
+	cTxNamedOnChain // a transaction named by a traceable on-chain Conflicts attribute of one of its signers (prepared by conflictAttack)
 	numCorruptions
 )
 
 var corruptionNames = [...]string{"version", "prevhash", "merkle", "timestamp", "index+1", "index-far", "index-1", "nonce", "primary",
 	"nextconsensus", "prevstateroot", "sig-flip", "sig-missing", "sig-reorder", "sig-otherkeys", "verifscript", "tx-dup", "tx-alter",
-	"tx-expired", "tx-onchain", "tx-underfunded", "tx-drop-keep-merkle", "tx-reorder-keep-merkle", "truncated", "trailing", "nonminimal-count"}
+	"tx-expired", "tx-onchain", "tx-underfunded", "tx-drop-keep-merkle", "tx-reorder-keep-merkle", "truncated", "trailing", "nonminimal-count",
+	"tx-named-by-onchain-conflicts"}
 
 // resignable: corruptions whose re-signed variant is still an invalid chain extension
 // (re-signing nonce/primary/nextconsensus/drop/reorder variants would produce a different VALID block).
 var resignable = map[int]bool{cPrevHash: true, cMerkle: true, cTimestamp: true, cIndexPlus: true, cIndexFar: true,
-	cIndexMinus: true, cPrevStateRoot: true, cTxDup: true, cTxAlter: true, cTxExpired: true, cTxOnChain: true, cTxUnderfunded: true}
+	cIndexMinus: true, cPrevStateRoot: true, cTxDup: true, cTxAlter: true, cTxExpired: true, cTxOnChain: true, cTxUnderfunded: true, cTxNamedOnChain: true}
 
 // CorruptOp is one corrupted delivery before block At (index into the produced chain).
 type CorruptOp struct {
@@ -93,6 +96,7 @@ func drawC06(rt *rapid.T, p *Plan, tier string) *Plan {
 	p.Election = drawElection(rt)
 	p.HeadersFirst = rapid.Bool().Draw(rt, "hdrfirst")
 	p.KnownHeader = rapid.Bool().Draw(rt, "knownhdr")
+	p.ConflictAttack = rapid.IntRange(0, 2).Draw(rt, "conflictattack") == 0
 	p.Tape = drawTape(rt, 128)
 	return p
 }
@@ -249,6 +253,12 @@ func (r *run) corrupt(b *block.Block, prev *block.Block, op CorruptOp) (raw []by
 		}
 		c.Transactions = append(c.Transactions, tx)
 		rebuildMerkle = true
+	case cTxNamedOnChain:
+		if r.c06Victim == nil {
+			return nil, false, desc, false
+		}
+		c.Transactions = append(c.Transactions, r.c06Victim)
+		rebuildMerkle = true
 	case cTxDropKeepMerkle:
 		if len(c.Transactions) == 0 {
 			return nil, false, desc, false
@@ -301,7 +311,7 @@ func (r *run) corrupt(b *block.Block, prev *block.Block, op CorruptOp) (raw []by
 		// the genuine header with a body that does not match it
 		return encodeBlock(c), true, desc, true
 	}
-	validHeader = signed && (kind == cMerkle || kind == cTxDup || kind == cTxAlter || kind == cTxExpired || kind == cTxOnChain || kind == cTxUnderfunded)
+	validHeader = signed && (kind == cMerkle || kind == cTxDup || kind == cTxAlter || kind == cTxExpired || kind == cTxOnChain || kind == cTxUnderfunded || kind == cTxNamedOnChain)
 	return encodeBlock(c), validHeader, desc, true
 }
 
@@ -402,8 +412,171 @@ func (r *run) runC06() {
 		}
 		prev = b
 	}
+	if r.plan.ConflictAttack && r.fail == nil {
+		r.conflictAttack(V, prev)
+		return
+	}
 	if r.plan.Proto.StateRootInHeader && r.plan.HeadersFirst {
 		r.headersFirstAttack(V)
+	}
+}
+
+// conflictAttack: "named as a conflict by an on-chain transaction of one of its signers". A victim transaction is
+// prepared (never sent to the producer), transactions naming it in a Conflicts attribute get on chain, and then a
+// block that contains the victim - otherwise valid, validly signed by the validators - is delivered: it must be
+// refused and change nothing. Variants (tape): the victim sits in V's own pool before the naming block arrives (the
+// pool refresh after that block has to drop it; AddBlock does not re-verify pooled transactions) and is named by
+// its sender or only by its co-signer; or two transactions name it at different heights - first one of an unrelated
+// account, later one of the victim's signer - and the block arrives when the older namer has just left the
+// traceable window while the younger one is still inside.
+func (r *run) conflictAttack(V *Node, prev *block.Block) {
+	bc := r.P.BC
+	kr := r.prod.kr
+	a, other := kr.acct(0), kr.acct(1)
+	gas := func(h util.Uint160) bool { return bc.GetUtilityTokenBalance(h, util.Uint160{}).Sign() > 0 }
+	if !gas(a.ScriptHash()) || !gas(other.ScriptHash()) || prev == nil {
+		return
+	}
+	mtb := bc.GetMaxTraceableBlocks()
+	inc := bc.GetMaxValidUntilBlockIncrement()
+	magic := bc.GetConfig().Magic
+	h0 := bc.BlockHeight()
+	mk := func(signers []neotest.SingleSigner, amount int64, vub uint32, names *transaction.Transaction) *transaction.Transaction {
+		tx := transaction.New(callScript(bc.UtilityTokenHash(), "transfer", signers[0].ScriptHash(), kr.acctHash(2), amount, nil), 0)
+		r.prod.nonce++
+		tx.Nonce = r.prod.nonce
+		tx.ValidUntilBlock = vub
+		for _, sg := range signers {
+			tx.Signers = append(tx.Signers, transaction.Signer{Account: sg.ScriptHash(), Scopes: transaction.CalledByEntry})
+		}
+		if names != nil {
+			tx.Attributes = append(tx.Attributes, transaction.Attribute{Type: transaction.ConflictsT, Value: &transaction.Conflicts{Hash: names.Hash()}})
+		}
+		tx.SystemFee = 20_000_000
+		var sgs []neotest.Signer
+		for _, sg := range signers {
+			sgs = append(sgs, sg)
+		}
+		neotest.AddNetworkFee(r.P.tb, bc, tx, sgs...)
+		if names != nil {
+			tx.NetworkFee += 10_000_000
+		}
+		for _, sg := range signers {
+			if err := sg.SignTx(magic, tx); err != nil {
+				sim.Harnessf("sign: %v", err)
+			}
+		}
+		return tx
+	}
+	step := func(pre []*transaction.Transaction) (*block.Block, bool) {
+		b, ok := r.produce(BlockPlan{}, pre)
+		if !ok {
+			return nil, false
+		}
+		for _, tx := range pre {
+			if _, _, err := bc.GetTransaction(tx.Hash()); err != nil {
+				r.out.Probes["conflict_attack_namer_not_on_chain"]++
+				return nil, false
+			}
+		}
+		if err := V.AddBlockBytes(r.raw[b.Index]); err != nil {
+			r.violate(sim.Violatef("valid-block-rejected-after-attack", "", "V rejected the correct block %d: %v", b.Index, err))
+			return nil, false
+		}
+		sim.Wait()
+		r.compare(V, b.Index, "after-block")
+		return b, r.fail == nil
+	}
+	var victim *transaction.Transaction
+	variant := r.tape.Choose(3)
+	if variant == 2 && (mtb > 12 || inc < 3) {
+		variant = r.tape.Choose(2)
+	}
+	switch variant {
+	case 0, 1:
+		// pooled at V (variant 0) or unknown to V (variant 1); sender a, co-signer other; named by one of them
+		victim = mk([]neotest.SingleSigner{a, other}, 7, h0+min(inc, 4), nil)
+		if variant == 0 {
+			cp, err := transaction.NewTransactionFromBytes(victim.Bytes())
+			if err != nil {
+				sim.Harnessf("tx copy: %v", err)
+			}
+			if err := V.BC.PoolTx(cp); err != nil {
+				r.out.Probes["conflict_attack_victim_not_poolable"]++
+				return
+			}
+			r.out.Probes["conflict_attack_victim_pooled"]++
+		}
+		namer := []neotest.SingleSigner{a}
+		if r.tape.Chance(1, 2) {
+			namer = []neotest.SingleSigner{other}
+			r.out.Probes["conflict_attack_named_by_cosigner"]++
+		}
+		b, ok := step([]*transaction.Transaction{mk(namer, 3, h0+min(inc, 3), victim)})
+		if !ok {
+			return
+		}
+		prev = b
+		if min(inc, 4) >= 3 && r.tape.Chance(1, 2) {
+			if b, ok = step(nil); !ok {
+				return
+			}
+			prev = b
+		}
+		if variant == 0 && V.BC.GetMemPool().ContainsKey(victim.Hash()) {
+			r.violate(sim.Violatef("c06-conflicting-tx-stays-pooled", "", "a pooled transaction named by the Conflicts attribute of a transaction of one of its signers in block %d is still in the pool after that block", b.Index))
+			return
+		}
+	case 2:
+		// two namers at different heights; the block arrives when the older one is just untraceable
+		i1 := h0 + 1
+		victim = mk([]neotest.SingleSigner{a}, 7, i1+mtb+1, nil)
+		b, ok := step([]*transaction.Transaction{mk([]neotest.SingleSigner{other}, 3, h0+min(inc, 3), victim)})
+		if !ok {
+			return
+		}
+		prev = b
+		gap := r.tape.Choose(int(min(mtb-2, 4)))
+		for i := 0; i < gap; i++ {
+			if b, ok = step(nil); !ok {
+				return
+			}
+			prev = b
+		}
+		hb := bc.BlockHeight()
+		if b, ok = step([]*transaction.Transaction{mk([]neotest.SingleSigner{a}, 4, hb+min(inc, 3), victim)}); !ok {
+			return
+		}
+		prev = b
+		// the attacked block has index i1+mtb+1-back: its verification height is i1+mtb-back
+		back := uint32(r.tape.Choose(2))
+		for bc.BlockHeight() < i1+mtb-back {
+			if b, ok = step(nil); !ok {
+				return
+			}
+			prev = b
+		}
+		r.out.Probes["conflict_attack_two_namers"]++
+	}
+	// the genuine next block and its variant carrying the victim
+	b, ok := r.produce(BlockPlan{}, nil)
+	if !ok {
+		return
+	}
+	if victim.ValidUntilBlock < b.Index || victim.ValidUntilBlock > b.Index-1+inc {
+		r.out.Probes["conflict_attack_victim_out_of_window"]++
+		return
+	}
+	r.c06Victim = victim
+	poisoned := false
+	r.out.Probes["conflict_attack_delivered"]++
+	if r.attack(V, b, prev, CorruptOp{Kind: cTxNamedOnChain, Resign: true}, &poisoned) {
+		return
+	}
+	if !poisoned {
+		if err := V.AddBlockBytes(r.raw[b.Index]); err != nil {
+			r.violate(sim.Violatef("valid-block-rejected-after-attack", "", "V rejected the correct block %d after the block carrying a conflicting transaction: %v", b.Index, err))
+		}
 	}
 }
 
